@@ -17,6 +17,10 @@ pub enum DOp {
     /// through `graph_mut(g)`
     ViewInsert(Option<MT>, MQ),
     ViewRemove(Option<MT>, MQ),
+    ViewInsertAll(Option<MT>, Vec<MQ>),
+    ViewRemoveAll(Option<MT>, Vec<MQ>),
+    ViewRemoveMatching(Option<MT>, QPat),
+    ViewRetainMatching(Option<MT>, QPat),
     ReadUnion(QPat),
     ReadIntoUnion(QPat),
     ReadPartial(GPat, QPat),
@@ -29,6 +33,8 @@ pub enum GOp {
     /// through `as_dataset_mut()`
     DsInsert(MQ),
     DsRemove(MQ),
+    DsRemoveAll(Vec<MQ>),
+    DsInsertAllDefault(Vec<MQ>),
     ReadDs(QPat),
     ReadIntoDs(QPat),
 }
@@ -173,6 +179,72 @@ macro_rules! make_run_ds {
                 }
                 if r.is_err() {
                     ctx.fail("view/graph_mut-remove-error", format!("step {step} {name}: {r:?}"));
+                }
+            }
+            DOp::ViewInsertAll(g, ts) => {
+                view_mut = true;
+                ctx.class("view-insert_all");
+                let gn = g.as_ref().map(MT::to_simple);
+                let r = {
+                    let mut v = d.graph_mut(gn.clone());
+                    g_insert_all(&mut v, ts)
+                };
+                let mut n = 0;
+                for t in ts {
+                    let q = MQ::new(t.s.clone(), t.p.clone(), t.o.clone(), g.clone());
+                    if model_insert(&mut model, &q, is_set) {
+                        n += 1;
+                    }
+                }
+                if r.is_err() || (is_set && r != Ok(n)) {
+                    ctx.fail("view/graph_mut-insert_all", format!("step {step} {name}: graph_mut({:?}).insert_all -> {r:?}, expected Ok({n})", g.as_ref().map(MT::show)));
+                }
+            }
+            DOp::ViewRemoveAll(g, ts) => {
+                view_mut = true;
+                ctx.class("view-remove_all");
+                let gn = g.as_ref().map(MT::to_simple);
+                let r = {
+                    let mut v = d.graph_mut(gn.clone());
+                    g_remove_all(&mut v, ts)
+                };
+                let mut n = 0;
+                for t in ts {
+                    let q = MQ::new(t.s.clone(), t.p.clone(), t.o.clone(), g.clone());
+                    if model_remove(&mut model, &q) {
+                        n += 1;
+                    }
+                }
+                if r.is_err() || (is_set && r != Ok(n)) {
+                    ctx.fail("view/graph_mut-remove_all", format!("step {step} {name}: graph_mut({:?}).remove_all -> {r:?}, expected Ok({n})", g.as_ref().map(MT::show)));
+                }
+            }
+            DOp::ViewRemoveMatching(g, pat) => {
+                view_mut = true;
+                ctx.class("view-remove_matching");
+                let gn = g.as_ref().map(MT::to_simple);
+                let r = {
+                    let mut v = d.graph_mut(gn.clone());
+                    g_remove_matching(&mut v, pat)
+                };
+                let before = model.len();
+                model.retain(|q| !(q.g == *g && pat.matches_triple(q)));
+                let n = before - model.len();
+                if r.is_err() || (is_set && r != Ok(n)) {
+                    ctx.fail("view/graph_mut-remove_matching", format!("step {step} {name}: graph_mut({:?}).remove_matching -> {r:?}, expected Ok({n})", g.as_ref().map(MT::show)));
+                }
+            }
+            DOp::ViewRetainMatching(g, pat) => {
+                view_mut = true;
+                ctx.class("view-retain_matching");
+                let gn = g.as_ref().map(MT::to_simple);
+                let r = {
+                    let mut v = d.graph_mut(gn.clone());
+                    g_retain_matching(&mut v, pat)
+                };
+                model.retain(|q| q.g != *g || pat.matches_triple(q));
+                if r.is_err() {
+                    ctx.fail("view/graph_mut-retain_matching", format!("step {step} {name}: graph_mut({:?}).retain_matching -> {r:?}", g.as_ref().map(MT::show)));
                 }
             }
             DOp::ReadUnion(pat) => {
@@ -325,6 +397,41 @@ fn run_gr<G: MutableGraph + CollectibleGraph + Graph>(name: &str, is_set: bool, 
                     }
                 }
             }
+            GOp::DsRemoveAll(qs) => {
+                view_mut = true;
+                ctx.class("asds-remove_all");
+                let r = {
+                    let mut v = g.as_dataset_mut();
+                    d_remove_all(&mut v, qs)
+                };
+                let mut n = 0;
+                for q in qs {
+                    if q.g.is_none() && model_remove(&mut model, q) {
+                        n += 1;
+                    }
+                }
+                if r.is_err() || (is_set && r != Ok(n)) {
+                    ctx.fail("view/as_dataset_mut-remove_all", format!("step {step} {name}: as_dataset_mut().remove_all -> {r:?}, expected Ok({n})"));
+                }
+            }
+            GOp::DsInsertAllDefault(qs) => {
+                view_mut = true;
+                ctx.class("asds-insert_all");
+                let qs: Vec<MQ> = qs.iter().map(proj).collect();
+                let r = {
+                    let mut v = g.as_dataset_mut();
+                    d_insert_all(&mut v, &qs)
+                };
+                let mut n = 0;
+                for q in &qs {
+                    if model_insert(&mut model, q, is_set) {
+                        n += 1;
+                    }
+                }
+                if r.is_err() || (is_set && r != Ok(n)) {
+                    ctx.fail("view/as_dataset_mut-insert_all", format!("step {step} {name}: as_dataset_mut().insert_all -> {r:?}, expected Ok({n})"));
+                }
+            }
             GOp::ReadDs(pat) => {
                 if view_mut {
                     ctx.nontrivial();
@@ -398,6 +505,10 @@ impl Check for C11 {
             2 => quad.clone().prop_map(DOp::Remove),
             3 => (pick(gpool()), quad.clone()).prop_map(|(g, q)| DOp::ViewInsert(g, q)),
             3 => (pick(gpool()), quad.clone()).prop_map(|(g, q)| DOp::ViewRemove(g, q)),
+            1 => (pick(gpool()), prop::collection::vec(quad.clone(), 0..4)).prop_map(|(g, q)| DOp::ViewInsertAll(g, q)),
+            1 => (pick(gpool()), prop::collection::vec(quad.clone(), 0..4)).prop_map(|(g, q)| DOp::ViewRemoveAll(g, q)),
+            1 => (pick(gpool()), qp.clone()).prop_map(|(g, q)| DOp::ViewRemoveMatching(g, q)),
+            1 => (pick(gpool()), qp.clone()).prop_map(|(g, q)| DOp::ViewRetainMatching(g, q)),
             2 => qp.clone().prop_map(DOp::ReadUnion),
             1 => qp.clone().prop_map(DOp::ReadIntoUnion),
             3 => (gp.clone(), qp.clone()).prop_map(|(g, q)| DOp::ReadPartial(g, q)),
@@ -408,6 +519,8 @@ impl Check for C11 {
             2 => quad.clone().prop_map(GOp::Remove),
             3 => quad.clone().prop_map(GOp::DsInsert),
             4 => quad.clone().prop_map(GOp::DsRemove),
+            1 => prop::collection::vec(quad.clone(), 0..4).prop_map(GOp::DsRemoveAll),
+            1 => prop::collection::vec(quad.clone(), 0..4).prop_map(GOp::DsInsertAllDefault),
             3 => qp.clone().prop_map(GOp::ReadDs),
             1 => qp.clone().prop_map(GOp::ReadIntoDs),
         ];
